@@ -37,7 +37,7 @@ func BinaryBytes(o interface{}) []byte {
 // o: a pointer to the object to be filled
 func ReadBinaryBytes(d []byte, o interface{}) error {
 	r, n, err := bytes.NewBuffer(d), new(int), new(error)
-	ReadBinaryPtr(o, r, 0, n, err)
+	ReadBinaryPtr(o, r, len(d), n, err) // never allocate more than the input can hold
 	return *err
 }
 
